@@ -37,7 +37,7 @@ Proof.
   - intros c0. apply R_stored_same. reflexivity.
   - intros a b0 c0 H1 H2 Ha. apply H2. apply H1. exact Ha.
   - intros e c0 m c' acks He Hvb Hx.
-    destruct m as [am|dm|pm|f t amt|f t amt et|g r u ex|g r u];
+    destruct m as [am|dm|pm|f t amt|f t amt et|g r u ex|g r u|f amt outs];
       try (apply (R_stored_same c0 c'); eapply exec_base_aol_frame; [exact Hx | intros am0; discriminate]).
     simpl in Hvb, Hx. eapply exec_aol_stored; eauto.
   - intros e c0 t c' _ Hx. apply R_stored_same. apply (ante_aol_frame e c0 t c' Hx).
